@@ -91,6 +91,8 @@ class Layout:
                     self.tight[g] = True
             if kind is True:
                 self.need_newline[j + 1] = True
+        for g in getattr(prog, 'must_break', ()):
+            self.need_newline[g] = True
         self.stmt_start = set(prog.stmts)
         self.line_start = set(prog.stmts) | set(getattr(prog, 'closers', ()))
 
